@@ -14,13 +14,27 @@ package corr
 //	            (the marshalled bytes, hence the model's input, are identical for all of them)
 //	            → `nil`                                         EncodeFec returned nil
 //	            → `fecs n=<k>` then k × `fec ssrc= pt= seq= ts= m= x= p= cc= payload=<hex>`
-//	flexint:  new n=<numMedia> f=<numFec> ssrc=<media ssrc> fpt=<fec pt> fssrc=<fec ssrc>
-//	          w pkt=<hex> [reuse=1] [fail=<i,j,…>]
+//	flexint:  new n=<numMedia> f=<numFec> ssrc=<media ssrc> fpt=<fec pt> fssrc=<fec ssrc> [twid=<1..14: the stream negotiated the TWCC extension with this id>]
+//	          w pkt=<hex> [reuse=1] [fail=<i,j,…>] [wire=1: print the calls without the packet bytes]
 //	            → one `out ssrc= pt= seq= pkt=<hex of the marshalled packet> res=<ok|fail>` per call of
 //	              the bottom writer, in order (failed calls included)
 //	            → `ret n=<int> err=<number of injected errors in the returned error, 0 = nil>`
 //	            fail: the bottom writer returns (0, error) on its i-th, j-th … call during this Write
 //	              (0 = the media packet, 1.. = the repair packets that follow it)
+//
+// The wire check (every flexint case): each repair packet that reaches the bottom writer is parsed per
+// draft-ietf-payload-flexible-fec-scheme-03 (SN base + masks) and the draft's recovery is run against the media
+// packets AS THEY REACHED THE BOTTOM WRITER, once per named packet; `FEC-DECODE-FAIL …` when a packet is not
+// rebuilt byte for byte (the decoder below shares no code with the encoder or the model).
+//
+// The ambient (class `wire`): the FEC interceptor is one member of a chain, as behind interceptor.Registry, with the
+// TWCC header-extension interceptor registered AFTER it on a stream that negotiated the extension (`new … twid=<id>`),
+// plus transparent neighbours.  The later-registered member is the outer writer: it stamps the transport-wide
+// sequence number first, the FEC interceptor then protects the header exactly as it goes to the network, and the
+// repair packets — written by the FEC interceptor to ITS next writer — are not stamped.  The model does not know the
+// stamp, so these cases print the calls of the bottom writer without the bytes (`w … wire=1`); the wire check is what
+// ties the repair packets to the media packets.  (Registered BEFORE the FEC interceptor the header extension would be
+// written after the protection was computed, on media and repair packets alike: an application error, not generated.)
 //
 // With reuse=1 the caller owns ONE raw buffer and ONE rtp.Packet object: the packet is unmarshalled
 // into them, written, and the raw buffer and CSRC array are overwritten with 0xEE as soon as Write
@@ -30,6 +44,7 @@ package corr
 // model (which identifies a media packet with its marshalled bytes): `err:noncanonical`.
 
 import (
+	"encoding/binary"
 	"encoding/hex"
 	"fmt"
 	"strings"
@@ -44,7 +59,7 @@ import (
 // packet generation
 
 type c14Shape struct {
-	csrcMax, extKind, padMax, payMin, payMax int // extKind: 0 none, 1 random mix
+	csrcMax, extKind, padMax, payMin, payMax int // extKind: 0 none, 1 random mix, 2 RFC 8285 only (one- or two-byte)
 	anyPT                                    bool
 }
 
@@ -68,7 +83,7 @@ func c14Packet(r *Rng, sh c14Shape, seq uint16, ts, ssrc uint32) []byte {
 		}
 	}
 	if sh.extKind != 0 && r.Chance(1, 2) {
-		switch r.Intn(3) {
+		switch r.Intn(4 - sh.extKind) { // extKind 2: cases 0 and 1 only
 		case 0: // RFC 8285 one-byte
 			p.Extension = true
 			p.ExtensionProfile = rtp.ExtensionProfileOneByte
@@ -401,7 +416,7 @@ func c14RunEnc(t *testing.T, ops []string, o *Out) {
 
 func c14GenInt(r *Rng, tier string, idx int) Case {
 	classes := []string{"plain", "shapes", "scribble", "foreign", "gaps", "passthrough", "scribble", "widebatch",
-		"faults", "faults"}
+		"faults", "faults", "wire"}
 	cl := classes[idx%len(classes)]
 	n := r.Range(1, 9)
 	f := r.Range(0, n+1)
@@ -421,6 +436,18 @@ func c14GenInt(r *Rng, tier string, idx int) Case {
 	}
 	ops := []string{fmt.Sprintf("new n=%d f=%d ssrc=%d fpt=%d fssrc=%d", n, f, ssrc, fpt, fssrc)}
 	sh := c14Plain
+	wire := ""
+	if cl == "wire" {
+		// in a chain; the TWCC header-extension interceptor registered after the FEC interceptor (= further out)
+		ops[0] += fmt.Sprintf(" twid=%d", r.Range(1, 14))
+		before := []string{"", "", "noop", "stats", "dumps"}[r.Intn(5)]
+		after := []string{"hdr", "hdr", "hdr,noop", "stats,hdr", "hdr,stats", "noop,hdr,dumps"}[r.Intn(6)]
+		ops = append([]string{ambOp(before, after, true, false, false, false)}, ops...)
+		wire = " wire=1"
+		if r.Chance(2, 3) {
+			sh = c14Shape{csrcMax: 3, extKind: 2, padMax: 16, payMin: 0, payMax: 40, anyPT: true}
+		}
+	}
 	switch cl {
 	case "shapes", "scribble":
 		sh = c14Shape{csrcMax: 3, extKind: 1, padMax: 16, payMin: 0, payMax: 40, anyPT: true}
@@ -463,12 +490,21 @@ func c14GenInt(r *Rng, tier string, idx int) Case {
 		return pick("", "", "", " fail=0", " fail=1", " fail=0,1", " fail=7")
 	}
 	for i := 0; i < total; i++ {
-		if (cl == "foreign" || cl == "faults") && r.Chance(1, 4) {
-			fs := ""
+		if (cl == "foreign" || cl == "faults" || cl == "wire") && r.Chance(1, 4) {
+			fs := wire
 			if cl == "faults" {
 				fs = drawFail(false)
 			}
 			ops = append(ops, "w pkt="+hex.EncodeToString(c14Packet(r, sh, uint16(r.Intn(65536)), ts, ssrc+1+uint32(r.Intn(3))))+fs)
+		}
+		if cl == "wire" {
+			suffix = wire
+			if r.Chance(1, 4) {
+				suffix += drawFail((i+1)%n == 0)
+			}
+			if r.Chance(1, 6) {
+				suffix += " reuse=1"
+			}
 		}
 		if cl == "faults" {
 			suffix = drawFail((i+1)%n == 0)
@@ -515,9 +551,122 @@ func c14CountInjected(err error) int {
 	return n
 }
 
+// c14Protected parses the FlexFEC-03 header at the start of a repair packet's payload: the sequence numbers named
+// by SN base + masks, and the header length (draft-ietf-payload-flexible-fec-scheme-03, section 4.2).
+func c14Protected(p []byte, mediaSSRC uint32) (seqs []uint16, hdrLen int, err string) {
+	if len(p) < 20 {
+		return nil, 0, "shorter than the 20-byte FEC header"
+	}
+	if p[0]&0xC0 != 0 {
+		return nil, 0, "R/F bits set"
+	}
+	if p[8] != 1 || binary.BigEndian.Uint32(p[12:16]) != mediaSSRC {
+		return nil, 0, fmt.Sprintf("SSRC count %d / protected SSRC %d", p[8], binary.BigEndian.Uint32(p[12:16]))
+	}
+	base := binary.BigEndian.Uint16(p[16:18])
+	m1 := binary.BigEndian.Uint16(p[18:20])
+	for j := 0; j < 15; j++ {
+		if m1&(1<<(14-j)) != 0 {
+			seqs = append(seqs, base+uint16(j))
+		}
+	}
+	hdrLen = 20
+	if m1&0x8000 == 0 {
+		if len(p) < 24 {
+			return nil, 0, "k bit clear but no second mask"
+		}
+		m2 := binary.BigEndian.Uint32(p[20:24])
+		for j := 0; j < 31; j++ {
+			if m2&(1<<(30-j)) != 0 {
+				seqs = append(seqs, base+15+uint16(j))
+			}
+		}
+		hdrLen = 24
+		if m2&0x80000000 == 0 {
+			if len(p) < 32 {
+				return nil, 0, "k bit clear but no third mask"
+			}
+			m3 := binary.BigEndian.Uint64(p[24:32])
+			for j := 0; j < 63; j++ {
+				if m3&(1<<(62-j)) != 0 {
+					seqs = append(seqs, base+46+uint16(j))
+				}
+			}
+			hdrLen = 32
+		}
+	}
+	if len(seqs) == 0 {
+		return nil, 0, "empty mask"
+	}
+	return seqs, hdrLen, ""
+}
+
+// c14Recover: section 6.3 of the draft — rebuild the packet `missing` from the repair payload and the other
+// protected packets (marshalled, as they went to the network).
+func c14Recover(repair []byte, hdrLen int, others [][]byte, missing uint16) []byte {
+	var b01 [2]byte
+	var ts [4]byte
+	copy(b01[:], repair[0:2])
+	copy(ts[:], repair[4:8])
+	length := binary.BigEndian.Uint16(repair[2:4])
+	body := append([]byte(nil), repair[hdrLen:]...)
+	for _, m := range others {
+		b01[0] ^= m[0]
+		b01[1] ^= m[1]
+		length ^= uint16(len(m) - 12)
+		for i := 0; i < 4; i++ {
+			ts[i] ^= m[4+i]
+		}
+		for i := 12; i < len(m) && i-12 < len(body); i++ {
+			body[i-12] ^= m[i]
+		}
+	}
+	if int(length) > len(body) {
+		return nil
+	}
+	out := make([]byte, 12, 12+int(length))
+	out[0] = b01[0]&0x3F | 0x80
+	out[1] = b01[1]
+	binary.BigEndian.PutUint16(out[2:4], missing)
+	copy(out[4:8], ts[:])
+	copy(out[8:12], repair[12:16])
+	return append(out, body[:length]...)
+}
+
 func c14RunInt(t *testing.T, ops []string, o *Out) {
 	var w interceptor.RTPWriter
 	var icpt interceptor.Interceptor
+	var mediaSSRC, fecSSRC uint32
+	var fecPT uint8
+	onWire := map[uint16][]byte{} // media packets of the protected stream as they reached the bottom writer, by sequence number
+	wireMode := false             // the current Write prints its calls without the bytes
+	// wireCheck: a repair packet must rebuild each packet it names from the others — the packets as sent
+	wireCheck := func(seq uint16, payload []byte) {
+		seqs, hl, perr := c14Protected(payload, mediaSSRC)
+		if perr != "" {
+			o.P("FEC-DECODE-FAIL repair seq=%d: %s", seq, perr)
+			return
+		}
+		for _, s := range seqs {
+			if onWire[s] == nil {
+				o.P("FEC-DECODE-FAIL repair seq=%d names media packet %d, which never reached the writer", seq, s)
+				return
+			}
+		}
+		for _, miss := range seqs {
+			var others [][]byte
+			for _, s := range seqs {
+				if s != miss {
+					others = append(others, onWire[s])
+				}
+			}
+			if got := c14Recover(payload, hl, others, miss); string(got) != string(onWire[miss]) {
+				o.P("FEC-DECODE-FAIL repair seq=%d protecting %s: media packet %d as sent is %s, recovered %s",
+					seq, joinInts(seqs), miss, hexs(onWire[miss]), hexs(got))
+				return
+			}
+		}
+	}
 	raw := make([]byte, 4096) // the caller's single buffer (reuse=1)
 	shared := &rtp.Packet{}   // the caller's single packet object (reuse=1)
 	var failAt map[int]bool // calls of the bottom writer that fail during the current Write
@@ -531,11 +680,25 @@ func c14RunInt(t *testing.T, ops []string, o *Out) {
 			o.P("out err:marshal")
 			return 0, nil
 		}
+		res := "ok"
 		if failAt[idx] {
-			o.P("out ssrc=%d pt=%d seq=%d pkt=%s res=fail", h.SSRC, h.PayloadType, h.SequenceNumber, hexs(buf[:k]))
+			res = "fail"
+		}
+		if wireMode {
+			o.P("out ssrc=%d pt=%d seq=%d res=%s", h.SSRC, h.PayloadType, h.SequenceNumber, res)
+		} else {
+			o.P("out ssrc=%d pt=%d seq=%d pkt=%s res=%s", h.SSRC, h.PayloadType, h.SequenceNumber, hexs(buf[:k]), res)
+		}
+		switch {
+		case fecSSRC == 0 || fecPT == 0: // FEC not configured for the stream
+		case h.SSRC == mediaSSRC:
+			onWire[h.SequenceNumber] = append([]byte(nil), buf[:k]...)
+		case h.SSRC == fecSSRC && h.PayloadType == fecPT:
+			wireCheck(h.SequenceNumber, append([]byte(nil), p...))
+		}
+		if failAt[idx] {
 			return 0, &c14InjectedError{idx}
 		}
-		o.P("out ssrc=%d pt=%d seq=%d pkt=%s res=ok", h.SSRC, h.PayloadType, h.SequenceNumber, hexs(buf[:k]))
 		return len(p), nil
 	})
 	defer func() {
@@ -562,13 +725,21 @@ func c14RunInt(t *testing.T, ops []string, o *Out) {
 				o.P("err:factory")
 				continue
 			}
-			icpt, err = fac.NewInterceptor("")
+			ic0, err := fac.NewInterceptor("")
 			if err != nil {
 				o.P("err:new")
 				continue
 			}
-			w = icpt.BindLocalStream(&interceptor.StreamInfo{SSRC: uint32(ssrc),
-				PayloadTypeForwardErrorCorrection: uint8(fpt), SSRCForwardErrorCorrection: uint32(fssrc)}, bottom)
+			icpt = o.Wrap(ic0) // the case's ambient (ambient_test.go)
+			info := &interceptor.StreamInfo{SSRC: uint32(ssrc),
+				PayloadTypeForwardErrorCorrection: uint8(fpt), SSRCForwardErrorCorrection: uint32(fssrc)}
+			if id, ok := m["twid"]; ok && atoi(id) >= 1 && atoi(id) <= 14 {
+				info.RTPHeaderExtensions = []interceptor.RTPHeaderExtension{
+					{URI: "http://www.ietf.org/id/draft-holmer-rmcat-transport-wide-cc-extensions-01", ID: atoi(id)}}
+			}
+			mediaSSRC, fecSSRC, fecPT = uint32(ssrc), uint32(fssrc), uint8(fpt)
+			onWire = map[uint16][]byte{}
+			o.InfoGuard("BindLocalStream", info, func() { w = icpt.BindLocalStream(info, bottom) })
 		case "w":
 			if w == nil {
 				o.P("bad-op")
@@ -593,6 +764,7 @@ func c14RunInt(t *testing.T, ops []string, o *Out) {
 				failAt[i] = true
 			}
 			call = 0
+			wireMode = m["wire"] == "1"
 			var n int
 			if m["reuse"] == "1" && len(b) <= len(raw) {
 				copy(raw, b)
@@ -600,7 +772,7 @@ func c14RunInt(t *testing.T, ops []string, o *Out) {
 					o.P("err:noncanonical")
 					continue
 				}
-				n, err = w.Write(&shared.Header, shared.Payload, nil)
+				n, err = w.Write(&shared.Header, shared.Payload, o.Attrs(nil))
 				for i := range raw { // the caller reuses its memory as soon as Write has returned
 					raw[i] = 0xEE
 				}
@@ -610,7 +782,7 @@ func c14RunInt(t *testing.T, ops []string, o *Out) {
 			} else {
 				p := rtp.Packet{}
 				_ = p.Unmarshal(b)
-				n, err = w.Write(&p.Header, p.Payload, nil)
+				n, err = w.Write(&p.Header, p.Payload, o.Attrs(nil))
 			}
 			o.P("ret n=%d err=%d", n, c14CountInjected(err))
 		default:
